@@ -191,17 +191,41 @@ def _build(job):
     return idx, exe, err, dt, cached
 
 
+def _trim(rej, per_tag=6):
+    """keep at most `per_tag` rejections per (property, tag): replay texts are large"""
+    out = {}
+    for prop, lst in rej.items():
+        seen = {}
+        for r in lst:
+            t = r.get('tag', '')
+            seen[t] = seen.get(t, 0) + 1
+            if seen[t] <= per_tag:
+                out.setdefault(prop, []).append(r)
+            else:
+                out.setdefault(prop + '#more', {}).setdefault(t, 0)
+                out[prop + '#more'][t] += 1
+    return out
+
+
 def _run(job):
-    idx, exe, seed, scen, ops, out, sweep = job
+    """Worker (own process): run one generated program, replay its transcript through the model, judge it."""
+    idx, exe, seed, scen, ops, out, sweep, sexpr, cfg = job
     t0 = time.time()
     with open(out, 'wb') as f:
         try:
-            p = subprocess.run([exe, str(seed), str(scen), str(ops), str(sweep)], stdout=f, stderr=subprocess.PIPE, timeout=1500)
+            p = subprocess.run([exe, str(seed), str(scen), str(ops), str(sweep)], stdout=f, stderr=subprocess.PIPE, timeout=2400)
             st, err = p.returncode, p.stderr.decode('utf8', 'replace')[-4000:]
         except subprocess.TimeoutExpired:
             st, err = -9, 'timeout (possible non-termination inside the library)'
-    ok, n, msgs = (False, 0, ['harness failed']) if st != 0 else V.run_driver_all('mach', out)
-    return idx, st, err, ok, n, msgs, time.time() - t0
+    ok, n, msgs = (False, 0, ['harness failed']) if st != 0 else V.run_driver_all('mach', out, timeout=3000)
+    rej, asserts, oracle_err = {}, {}, None
+    stats = O.Stats()
+    try:
+        O.judge_file(out, S.parse(sexpr), cfg, rej, stats, asserts)
+    except Exception as e:       # an oracle bug must never masquerade as a pass
+        import traceback
+        oracle_err = '%r %s' % (e, traceback.format_exc()[-600:])
+    return idx, st, err, ok, n, msgs, time.time() - t0, _trim(rej), stats.d, asserts, oracle_err
 
 
 def full_run(tier, seed):
@@ -237,14 +261,14 @@ def full_run(tier, seed):
                 continue
             prog['built'] = True
             prog['exe'] = exe
-            runs.append((idx, exe, seed, scen, ops, os.path.join(trdir, 't%03d.txt' % idx), 600 if tier == 'quick' else 6000))
-        with cf.ThreadPoolExecutor(max_workers=V.JOBS) as ex:
+            runs.append((idx, exe, seed, scen, ops, os.path.join(trdir, 't%03d.txt' % idx), 600 if tier == 'quick' else 3000,
+                         prog['shape'], cfg))
+        with cf.ProcessPoolExecutor(max_workers=V.JOBS) as ex:
             done = list(ex.map(_run, runs))
         stats = O.Stats()
-        for (idx, st, err, ok, n, msgs, dt), job in zip(done, runs):
+        for (idx, st, err, ok, n, msgs, dt, rej, sd, asserts, oracle_err), job in zip(done, runs):
             prog = result['programs'][idx]
             prog.update(status=st, replay_ok=ok, lines=n, run_s=round(dt, 1))
-            tr = job[5]
             if st != 0:
                 result['rejections'].setdefault('C11', []).append(dict(
                     tag='crash', what='harness process died with status %d on shape %s: %s' % (st, prog['shape'], err[-600:]),
@@ -254,11 +278,17 @@ def full_run(tier, seed):
                 for msg in msgs[:12]:
                     result['divergences'].append(dict(program=idx, shape=prog['shape'], config=prog['config'],
                                                       message=msg[:2500], classes=classify(msg)))
-            # oracles on the implementation's own observations
-            try:
-                O.judge_file(tr, jobs[idx][0], prog['config'], result['rejections'], stats, result['asserts'])
-            except Exception as e:       # an oracle bug must never masquerade as a pass
-                result['broken'].append('oracle crashed on program %d: %r' % (idx, e))
+            # oracles on the implementation's own observations (judged in the worker)
+            if oracle_err:
+                result['broken'].append('oracle crashed on program %d: %s' % (idx, oracle_err))
+            for prop, lst in rej.items():
+                if prop.endswith('#more'):
+                    continue
+                result['rejections'].setdefault(prop, []).extend(lst)
+            for k, v in sd.items():
+                stats.inc(k, v)
+            for k, v in asserts.items():
+                result['asserts'][k] = result['asserts'].get(k, 0) + v
         result['stats'] = stats.as_dict()
         result['wall_s'] = round(time.time() - t0, 1)
         # keep transcripts only for diverging programs (replay material)
